@@ -12,7 +12,10 @@ RULE = ("generated DCOPs (1-6 variables, domains 1-3, all shapes incl. several c
         "the solve command looks: orchestrator.status right after run() and end_metrics(); oracle: status OK before the "
         "orchestrator's own 20 s timer, assignment covers every variable with domain values and its cost (harness tables) "
         "equals the brute-force optimum, reported cost / violation == harness accounting (entries equal to 10000 counted as "
-        "violations, others summed) == dcop.solution_cost; non-trivial = >= 2 variables sharing a constraint on >= 2 "
+        "violations, others summed) == dcop.solution_cost; of every eight runs two go through pydcop.infrastructure.run.solve() "
+        "(assignment returned optimal, status of the orchestrator it built not TIMEOUT) and one through the real command line "
+        "`pydcop -t 20 --output f solve --algo dpop -d <oneagent | distribution file> --infinity 10000 dcop.yaml` in a child process "
+        "(status FINISHED, assignment / cost / violation of the JSON result judged the same way); non-trivial = >= 2 variables sharing a constraint on >= 2 "
         "agents; distinct by hash(instance, mapping)")
 
 T = 20.0
